@@ -19,6 +19,36 @@ def handle_dumps(vis):
         d[h] = v
     return res, docs, d
 
+def cb_value(rnd, d=0):
+    """a value for the copy-with-budget cases: nested arrays / objects (keys unique per object) of small integers, booleans, null and
+    short strings — nothing that needs an extension slot"""
+    k = rnd.random()
+    if d >= 3 or k < 0.35:
+        return rnd.choice(["1", "7", "-3", "true", "false", "null", '"s"', '"key"', "0"])
+    if k < 0.68:
+        return "[" + ",".join(cb_value(rnd, d + 1) for _ in range(rnd.randrange(0, 5))) + "]"
+    keys = rnd.sample(["a", "b", "c", "key", "x", ""], rnd.randrange(0, 4))
+    return "{" + ",".join('"%s":%s' % (kk, cb_value(rnd, d + 1)) for kk in keys) + "}"
+
+def cb_slots(v):
+    if isinstance(v, list):
+        return sum(1 + cb_slots(e) for e in v)
+    if isinstance(v, dict):
+        return sum(2 + cb_slots(e) for e in v.values())
+    return 0
+
+def cb_trunc(p, v):
+    """p is what a copy of v may leave behind: the same value, or arrays cut after a fully copied element, objects cut after a
+    member whose own value is such a truncation"""
+    if isinstance(v, list):
+        return isinstance(p, list) and len(p) <= len(v) and all(x == y for x, y in zip(p, v))
+    if isinstance(v, dict):
+        if not isinstance(p, dict) or list(p.keys()) != list(v.keys())[:len(p)]:
+            return False
+        ks = list(p.keys())
+        return all(p[k] == v[k] for k in ks[:-1]) and (not ks or cb_trunc(p[ks[-1]], v[ks[-1]]))
+    return p == v
+
 def check(run):
     rnd = random.Random(run.seed * 275604541 + 5)
     thorough = run.tier == "thorough"
@@ -161,6 +191,44 @@ def check(run):
             if c:
                 run.violation(f"C05: library crashed / sanitizer report while deserializing under an allocation failure (geometry {defs}): {c[:300]}",
                               dict(kind="input", cfg=cfg, defines=defs, harness_src="doc_h", lines=[c.split("\n")[0].split(": ", 1)[-1][:20000]], observed=c[c.find("\n"):][-3000:]))
+    # --- copying a value when only b more slots can be had (Model/CopyBudget.v): result, destination and the number of slots
+    # still free afterwards must be the model's, for every budget from 0 to "enough"
+    import json as _json
+    from gen_doc import parse_dump as _pd
+    def _plain(d):
+        # dump value -> python value comparable with json.loads of the source text (ints, bools, None, str, list, dict)
+        if d is None or d is True or d is False: return d
+        if isinstance(d, list): return [_plain(x) for x in d]
+        if d[0] == "o": return {k.decode("latin1"): _plain(x) for k, x in d[1]}
+        if d[0] == "i": return d[1]
+        if d[0] == "s": return d[1].decode("latin1")
+        return ("other", d)
+    implc = vlib.need_harness("doc_h", cfg)
+    cb_lines, cb_meta = [], []
+    for _ in range(1200 if thorough else 150):
+        text = cb_value(rnd)
+        v = _json.loads(text)
+        need = cb_slots(v)
+        if need > 200:
+            continue
+        for b in range(0, need + 2):
+            cb_lines.append(f"CPB {b} {hx(text.encode())}")
+            cb_meta.append((text, v, need, b))
+    mism, cmo, cio = vlib.correspond(run, model, implc, cb_lines, cfg, "copy with a slot budget")
+    all_mism += [(cfg, m) for m in mism]
+    for l, (text, v, need, b), o in zip(cb_lines, cb_meta, cio):
+        if o == "<crash>":
+            continue
+        if "NOT-FLAGGED" in o or "LEAK-OR-MISUSE" in o or o.startswith(("budget-too-large", "setup", "bad-src")):
+            oracle_fail.append((cfg, l, "a failed copy sets overflowed(); every block returns to the allocator", o[:200])); continue
+        okc, d, rem = o.split(" ")[:3]
+        p = _plain(_pd(d))
+        if okc == "true" and (p != v or b < need or int(rem) != b - need):
+            oracle_fail.append((cfg, l, f"a copy that reports success is complete and uses exactly {need} slots", o[:200]))
+        elif okc == "false" and (b >= need or not cb_trunc(p, v)):
+            oracle_fail.append((cfg, l, "a copy fails only for lack of slots and leaves a truncation of the source (whole elements, whole members) in the destination", o[:200]))
+        elif okc == "false" and int(rem) + cb_slots(p) > b:
+            oracle_fail.append((cfg, l, "no more slots in use or free than there were", o[:200]))
     run.cov["rule"] = ("[deserialization] %d JSON texts and %d MessagePack inputs (C01 / C09 generators, filters on 30%%) x every single-failure position and every fail-from "
                        "position (%d failing runs, 2 geometries): no crash or sanitizer report; the result is the failure-free one or NoMemory with overflowed() set; "
                        "the document can be traversed, measured and serialized; clear() returns every block; reusable; nothing leaks or is released twice; " % (len(texts), len(mps), ndes_runs))
@@ -170,6 +238,7 @@ def check(run):
                        "does not claim success; handles unrelated to its target keep their value; after the history clear() returns every block, the document works again, "
                        "destruction leaks nothing, no block is released twice; distinct = distinct (geometry, history, schedule)" % (nh, total_runs))
     run.assumptions += ["a shrinking reallocate never fails (as the property states)", "level: fault enumeration over generated scenarios; the theorems are about the slot allocator model (PoolProofs)"]
+    run.cov["rule"] += "; [copy with a slot budget] nested values x every budget 0..needed+1: result, destination, free slots afterwards = Model/CopyBudget.v; success = complete, failure = truncation, flagged"
     jsonchecks.finish_standard(run, "C05", ok, info, oracle_fail, all_mism, harness="hist_h")
 
 def replay(rp):
